@@ -61,6 +61,7 @@ class Handle:
         self.read_digests = {}
         self.write_bytes = {}
         self.write_cwds = set()
+        self.kind_bytes = {}
 
 
 class Runner(IOOpsMixin):
@@ -91,6 +92,8 @@ class Runner(IOOpsMixin):
         self.trace_state = threading.local()
         self.file_texts = {}
         self.cwd_rel = {c: w["cwd"] for c, w in scenario["worlds"].items()}
+        self.client_reads = {c: {} for c in scenario["worlds"]}     # (base, name) -> (digest, handle): every calculator of a client is built
+        self.client_writes = {c: {} for c in scenario["worlds"]}    # from the same settings file, so they must all agree
 
     # -- probes ---------------------------------------------------------------
     def probe(self, name, n=1):
@@ -142,6 +145,16 @@ class Runner(IOOpsMixin):
     # -- main loop --------------------------------------------------------------
     def run(self):
         self.setup()
+        single = None
+        if "O-order" in self.oracles and not self.session and self.sc["worlds"][self.solo].get("valid", True):
+            from . import singletons
+            pl = singletons.plan(self.sc, self.solo)
+            if pl["reads"] or pl["writes"]:
+                scratch = self.root + "-single"
+                try:
+                    single = (pl, singletons.compute(self, self.solo, pl, scratch))
+                finally:
+                    S.rmtree(scratch)
         real_stdout, real_stderr = sys.stdout, sys.stderr
         sys.stdout = self.stdout
         devnull = open(os.devnull, "w")
@@ -161,6 +174,9 @@ class Runner(IOOpsMixin):
             sys.stdout, sys.stderr = real_stdout, real_stderr
             devnull.close()
         self._final_checks()
+        if single is not None:
+            from . import singletons
+            singletons.compare(self, self.solo, single[0], single[1])
         st = self.stats
         st["seam"] = self.seams.stats
         for f in self.seams.fault_fired:
@@ -288,6 +304,8 @@ class Runner(IOOpsMixin):
             os.chdir(want)
             self.driver_cwd = want
         before = S.snapshot_tree(self.root) if ("O-frame" in self.oracles and not in_segment) else None
+        if attempt == 0 and op.get("tick"):
+            self.seams.advance(op["tick"])       # the simulated clock (file timestamps) moves only when the scenario says so
         self.seams.begin_op(client, i, attempt, faults)
         self.stdout.start()
         line_fault = next((f for f in faults if f["kind"] in ("cancel", "alloc-fail")), None)
@@ -504,6 +522,16 @@ class Runner(IOOpsMixin):
                              expected=h.read_digests[key], actual=d)
         else:
             h.read_digests[key] = d
+        if key != ("calc", "config"):
+            prev = self.client_reads[client].get(key)
+            if prev is None:
+                self.client_reads[client][key] = (d, op["h"])
+            elif prev[1] != op["h"]:
+                self.probe("reread_on_another_calculator")
+                if prev[0] != d and "O-twice" in self.oracles:
+                    self.verdict("O-twice", "C14", client, i,
+                                 f"the same calculation performed again in the same process disagrees with itself: {op['base']}.{op['name']} of calculator {op['h']} "
+                                 f"differs from that of calculator {prev[1]} built earlier from the same settings", expected=prev[0], actual=d)
         if "O-round" in self.oracles and op["base"] == "calc" and op["name"] in ("qha_input", "elast_data"):
             self._check_round_calc(client, i, h)
         return {"array": d}
@@ -512,10 +540,17 @@ class Runner(IOOpsMixin):
         h = self._get_handle(client, op)
         cfg = h.calc.config
         what = op["what"]
+        out = cfg.get("output") or {}
+        aliased = out.get("pressure_base") is not None and out.get("pressure_base") is out.get("volume_base")   # YAML anchor: ONE list object
+        if aliased:
+            self.probe("output_lists_aliased")
         if what == "append_output":
             base = op["base"]
             cfg.setdefault("output", {}).setdefault(base, []).append(op["entry"])
             h.eff_output.setdefault(base, []).append(op["entry"])
+            if aliased:     # the user appended to the one list both bases refer to
+                other = "volume_base" if base == "pressure_base" else "pressure_base"
+                h.eff_output.setdefault(other, []).append(op["entry"])
         elif what == "set_symmetry":
             cfg["elast"]["settings"].setdefault("symmetry", {})[op["key"]] = op["value"]
         elif what == "clear_output_base":
@@ -555,6 +590,7 @@ class Runner(IOOpsMixin):
                 S.write_text(p, c.get("text", ""))
                 made.append(p)
             self.driver_writes = getattr(self, "driver_writes", set()) | {os.path.relpath(m, self.root) for m in made}
+            self.seams.touch(os.path.relpath(p, self.root), created=True)
             self.probe("clutter_entries")
             self.probe("clutter_mid_session")
         return {}
@@ -581,11 +617,18 @@ class Runner(IOOpsMixin):
             plan = [("pressure_base", list(h.eff_output.get("pressure_base", []))),
                     ("volume_base", list(h.eff_output.get("volume_base", [])))]
             plan = [(b, es) for b, es in plan if b in h.eff_output]
+        elif spec["base"] == "both":
+            plan = [("pressure_base", list(spec["list"])), ("volume_base", list(spec["list"]))]
         else:
             plan = [(spec["base"], list(spec["list"]))]
         expected = self._expected_files(client, h, plan) if ("O-disk" in self.oracles or "O-frame" in self.oracles or True) else None
         if spec is None:
             h.calc.write_output()
+        elif spec["base"] == "both":
+            lst = copy.deepcopy(spec["list"])       # ONE list object handed to both bases, as a user script (or a YAML anchor) would
+            h.calc.pressure_base.write_variables(lst)
+            h.calc.volume_base.write_variables(lst)
+            self.probe("one_list_object_for_both_bases")
         else:
             obj = h.calc.pressure_base if spec["base"] == "pressure_base" else h.calc.volume_base
             obj.write_variables(spec["list"])
@@ -708,6 +751,33 @@ class Runner(IOOpsMixin):
                         self.verdict("O-twice", "C15" if h.write_bytes[sig][1] != e["kw"] else "C14", client, i,
                                      f"writing {sig} again (keyword {e['kw']}, before {h.write_bytes[sig][1]}) produced different bytes in {relp}")
                 h.write_bytes[sig] = (sha(b), e["kw"])
+                if e["key"] is not None and e["rule"]["attr"] in ("modulus_adiabatic", "modulus_isothermal"):
+                    kb = h.kind_bytes.setdefault((e["base"], e["key"], e["unit"]), {})
+                    kb[e["rule"]["attr"]] = sha(b)
+                    if len(kb) == 2 and kb["modulus_adiabatic"] == kb["modulus_isothermal"] and "O-disk" in self.oracles:
+                        try:
+                            from cij.util import c_
+                            ad = numpy.asarray(h.calc.modulus_adiabatic[c_(e["key"])])
+                            iso = numpy.asarray(h.calc.modulus_isothermal[c_(e["key"])])
+                            differ = float(numpy.max(numpy.abs(ad - iso))) > 1e-6 * float(numpy.max(numpy.abs(ad)))
+                        except Exception:
+                            differ = False
+                        if differ:
+                            self.verdict("O-disk", "C15", client, i, f"the adiabatic and the isothermal keyword produced identical files for c{e['key']} on {e['base']} "
+                                         f"although the two tensors differ in memory: the keywords do not select the corresponding tensors")
+                        else:
+                            self.probe("ad_iso_identical_in_memory")
+                    elif len(kb) == 2:
+                        self.probe("ad_iso_files_differ")
+                prevw = self.client_writes[client].get(sig)
+                if prevw is None:
+                    self.client_writes[client][sig] = (sha(b), id(h))
+                elif prevw[1] != id(h):
+                    self.probe("rewrite_by_another_calculator")
+                    if prevw[0] != sha(b) and "O-twice" in self.oracles:
+                        self.verdict("O-twice", "C14", client, i,
+                                     f"the same calculation performed again in the same process disagrees with itself: {relp} ({e['kw']}) written by a second "
+                                     f"calculator built from the same settings differs from what the first one wrote")
 
     def _check_disk_file(self, client, i, relp, final=False):
         m = self.disk[relp]
